@@ -19,6 +19,7 @@ type pathStep struct {
 }
 
 type locSpec struct {
+	guard  Term // when non-empty: the location is assignable only if the guard holds (case clauses)
 	object bool        // every cell of the object ref points into (byte-level writes through casts)
 	mapRef Term        // whole Go map (content and domain) at this reference
 	mapTy  *types.Map
@@ -109,6 +110,24 @@ func (vc *VC) evalLocs(exprs []SExpr, env *Env) (locs []locSpec) {
 }
 
 func (vc *VC) evalLoc(e SExpr, env *Env) []locSpec {
+	// K.* : every ghost variable with that prefix
+	if b, ok := e.(*SBinary); ok && b.Op == "*" {
+		if sel, ok := b.X.(*SSelect); ok && sel.Sel == "" {
+			_ = sel
+		}
+	}
+	if name, ok := dottedName(e); ok && strings.HasSuffix(name, "._all") {
+		prefix := strings.TrimSuffix(name, "_all")
+		var out []locSpec
+		for _, gv := range vc.specs.Ghosts {
+			if strings.HasPrefix(gv.Name, prefix) {
+				if g := vc.ghostVar(gv.Name); g != nil {
+					out = append(out, locSpec{ghost: g.stateName, text: gv.Name})
+				}
+			}
+		}
+		return out
+	}
 	if name, ok := dottedName(e); ok {
 		if g := vc.ghostVar(name); g != nil {
 			return []locSpec{{ghost: g.stateName, text: name}}
@@ -308,18 +327,24 @@ func (vc *VC) tryLvalue(e SExpr, env *Env) (ref Term, t types.Type, ok bool) {
 // inLocs: leaf cell r (in memory array memName) is covered by locs.
 func (vc *VC) inLocs(r Term, memName string, locs []locSpec) Term {
 	var alts []Term
+	g := func(l locSpec, t Term) Term {
+		if l.guard.S != "" {
+			return And(l.guard, t)
+		}
+		return t
+	}
 	for _, l := range locs {
 		if l.object {
-			alts = append(alts, And(Not(Eq(l.ref, TNull)), Eq(vc.rootOf(r), vc.rootOf(l.ref))))
+			alts = append(alts, g(l, And(Not(Eq(l.ref, TNull)), Eq(vc.rootOf(r), vc.rootOf(l.ref)))))
 			continue
 		}
 		if l.ghost != "" || l.mapTy != nil || vc.memName(l.ti) != memName {
 			continue
 		}
 		if l.isRange {
-			alts = append(alts, vc.inRangeLoc(r, l))
+			alts = append(alts, g(l, vc.inRangeLoc(r, l)))
 		} else {
-			alts = append(alts, Eq(r, l.ref))
+			alts = append(alts, g(l, Eq(r, l.ref)))
 		}
 	}
 	return Or(alts...)
@@ -392,7 +417,11 @@ func (f *frame) frameCheckLocs(callee string, locs []locSpec, guard Term, pos to
 			alts := []Term{fresh, vc.le(l.hi, l.lo, true)}
 			for _, t := range vc.topLocs {
 				if t.isRange && t.ti != nil && l.ti != nil && vc.memName(t.ti) == vc.memName(l.ti) && pathEq(t.path, l.path) {
-					alts = append(alts, And(Eq(t.arr, l.arr), vc.le(t.lo, l.lo, true), vc.le(l.hi, t.hi, true)))
+					c := And(Eq(t.arr, l.arr), vc.le(t.lo, l.lo, true), vc.le(l.hi, t.hi, true))
+					if t.guard.S != "" {
+						c = And(t.guard, c)
+					}
+					alts = append(alts, c)
 				}
 			}
 			cond = Or(alts...)
@@ -819,9 +848,8 @@ selected:
 		return Term{}
 	}
 	// havoc
-	if !con.Pure {
-		f.havocAlloc()
-	}
+	// even a pure callee may allocate its result (fresh(result) must stay satisfiable)
+	f.havocAlloc()
 	hasAnyAssigns := con.HasAssigns
 	for _, sc := range sel {
 		if sc.c.HasAssigns {
